@@ -546,7 +546,8 @@ def handle (line : String) : String :=
           decListWith decAPath files with
     | some r, some h, some fs, some dirs, some files =>
       let m := if mode = "path" then GMode.path else if mode = "directory" then GMode.directory else GMode.name
-      let out := (gather fs m r h dirs files).map (fun x => encAPath x.inputDir ++ ":" ++ encStr (strPath x.rel))
+      -- (the traversal model; `C07.gatherIn_spec` relates it to the selection `gather`)
+      let out := (gatherWalk fs m r h dirs files).map (fun x => encAPath x.inputDir ++ ":" ++ encStr (strPath x.rel))
       encList (out.mergeSort (fun a b => a ≤ b))
     | _, _, _, _, _ => "bad-op"
   | ["glob", pat, str] =>
